@@ -63,3 +63,224 @@ Example c17_nonvacuous :
   crun cinit [OAddNode; OAddNode; OAddEdge 0 1; OAddEdge 0 1; ONodeAttrAdd 0 [97] (VInt 1); ONodeAttrAdd 0 [97] (VInt 2); ONodeAttrGet 0 [97]]
   = [RNode 0; RNode 1; RBool true; RBool false; RAddAttr None; RAddAttr (Some (VInt 1)); ROptVal (Some (VInt 2))].
 Proof. vm_compute. reflexivity. Qed.
+
+(* ================================================================================================================
+   Refinement over HISTORIES (audit follow-up).  Concrete runs and abstract runs are `fold_left`s over the same
+   operation list (`run`, Model/ContainerHist.v); the abstract models are in Spec/ContainerSpec.v:
+     edges of a node  ~  an unordered finite map sink -> attributes, iteration DEFINED as the ascending key list;
+     nodes            ~  a counter;
+     VariableMap      ~  a stack of lookup functions name -> (value, mutable), everything through the innermost binder;
+     Globals          ~  a stack of lookup functions name -> value.
+   Each theorem: the output lists agree AND the abstraction of the final concrete state is the final abstract state
+   (`erel` / `frel`: same lookup function, pointwise). *)
+From TSG Require Import Spec.ContainerSpec Spec.GraphSpec Proofs.OrderFacts Proofs.ContainerRefine Proofs.GraphRefine.
+
+(* ---- (1) edges ---- *)
+Theorem edges_refine : forall ops,
+  snd (run estep [] ops) = snd (run espec [] ops) /\
+  erel (fst (run estep [] ops)) (fst (run espec [] ops)).
+Proof. intros ops. exact (edges_refine_from [] [] ops erel_nil). Qed.
+
+(* the same from any related pair of states (e.g. in the middle of a history) *)
+Theorem edges_refine_from_related : forall es m ops, erel es m ->
+  snd (run estep es ops) = snd (run espec m ops) /\ erel (fst (run estep es ops)) (fst (run espec m ops)).
+Proof. exact edges_refine_from. Qed.
+
+(* abstraction function = the lookup function of the sorted vector; it commutes with every history *)
+Theorem edges_abs_commutes : forall ops k,
+  abs_edges (fst (run estep [] ops)) k = em_get k (fst (run espec [] ops)).
+Proof. intros ops k. destruct (edges_refine ops) as (_ & _ & _ & H). apply H. Qed.
+
+(* at most one edge per (source, sink) *)
+Theorem edge_unique_per_sink : forall ops, NoDup (map fst (fst (run estep [] ops))).
+Proof. intros ops. destruct (edges_refine ops) as (_ & Hw & _). apply nsorted_nodup, Hw. Qed.
+
+(* iteration is strictly ascending, and it is the sorted key set of the abstract map *)
+Theorem edge_iter_ascending_hist : forall ops,
+  StronglySorted N.lt (map fst (fst (run estep [] ops))) /\
+  map fst (fst (run estep [] ops)) = nsort (em_keys (fst (run espec [] ops))).
+Proof. intros ops. destruct (edges_refine ops) as (_ & H). split; [apply H|apply erel_iter, H]. Qed.
+
+(* edge_count = size of the abstract map *)
+Theorem edge_count_is_map_size : forall ops,
+  length (fst (run estep [] ops)) = length (fst (run espec [] ops)).
+Proof. intros ops. destruct (edges_refine ops) as (_ & H). apply erel_length, H. Qed.
+
+(* an edge lookup succeeds exactly for the edges that were added *)
+Theorem edge_lookup_iff_added : forall ops b,
+  edges_get b (fst (run estep [] ops)) <> None <-> In (EAdd b) ops.
+Proof.
+  intros ops b. destruct (edges_refine ops) as (_ & _ & _ & H). rewrite H, em_get_In, espec_run_keys. cbn [em_keys map In]. tauto.
+Qed.
+
+(* `estep` is not a second model: on an existing source node the edge operations of the public language
+   (Model/ContainerOps.v `cstep`, the one tied to the code by the correspondence stream) are `estep` on that node's
+   vector, and they leave every other node alone *)
+Theorem edges_of_public_language : forall s a n o,
+  gnode_at (cs_graph s) a = Some n ->
+  (forall b, o = EAdd b -> in_range (cs_graph s) b = true) ->
+  snd (cstep s (eop_cop a o)) = snd (estep (g_edges n) o) /\
+  exists n', gnode_at (cs_graph (fst (cstep s (eop_cop a o)))) a = Some n' /\
+             g_edges n' = fst (estep (g_edges n) o) /\
+             (forall a', a' <> a -> gnode_at (cs_graph (fst (cstep s (eop_cop a o)))) a' = gnode_at (cs_graph s) a').
+Proof. exact cstep_estep. Qed.
+
+(* ---- (2) nodes: references are the dense indices 0..n-1 in creation order; count and iteration follow the counter.
+   Over ALL histories of the public language (the other operations are observed as None and do not move the counter). *)
+Theorem nodes_refine : forall ops,
+  snd (run nstep cinit ops) = snd (run nspec O ops) /\
+  length (cs_graph (fst (run nstep cinit ops))) = fst (run nspec O ops).
+Proof. intros ops. exact (nodes_refine_from cinit ops). Qed.
+
+(* ---- (3) variables: the nested VariableMap of the checker and both interpreters ---- *)
+Theorem vars_refine : forall (V : Type) (m : varmap V) (ops : list (vop V)),
+  snd (run vstep m ops) = snd (run vspec (abs_varmap m) ops) /\
+  frel (fst (run vstep m ops)) (fst (run vspec (abs_varmap m) ops)).
+Proof. intros V m ops. apply vars_refine_from. apply frel_abs. Qed.
+
+(* what the abstract operations say, without the recursion: everything is decided by the innermost binder *)
+Theorem vars_spec_set_reading : forall (V : Type) (s : astack V) k v,
+  a_set s k v = match a_find s k with
+                | None => inr VarUndefined
+                | Some (_, (_, false)) => inr VarImmutable
+                | Some (i, (_, true)) => inl (list_update i (fun f => fupd f k (v, true)) s)
+                end.
+Proof. reflexivity. Qed.
+
+(* the public `Variables` (Globals) inside the public language: nested / leave / add / get / remove / clear against
+   a stack of lookup functions, over ALL histories (graph operations interleaved, observed as None) *)
+Theorem globals_refine : forall ops,
+  snd (run gstep cinit ops) = snd (run gspec [gempty] ops) /\
+  frel (cs_vars (fst (run gstep cinit ops))) (fst (run gspec [gempty] ops)).
+Proof. intros ops. apply globals_refine_from. repeat constructor. Qed.
+
+(* the two enumerating observers of `Variables` after any history, against the innermost lookup function of the
+   abstract stack: iter lists exactly its bindings, each name once, ascending by name (the canonical order of the
+   observation; the HashMap order itself is not modelled); is_empty holds iff it binds nothing *)
+Theorem globals_observers_refine : forall ops,
+  let top := hd gempty (fst (run gspec [gempty] ops)) in
+  (forall l, snd (cstep (cstate_after cinit ops) OVarIter) = RAttrs l ->
+     StronglySorted key_le l /\ NoDup (map fst l) /\ forall k v, In (k, v) l <-> top k = Some v) /\
+  (forall b, snd (cstep (cstate_after cinit ops) OVarIsEmpty) = RBool b -> (b = true <-> forall k, top k = None)).
+Proof. exact globals_observers_lemma. Qed.
+
+(* the projected runners visit the states of the public language *)
+Theorem projected_runs_same_states : forall ops,
+  fst (run nstep cinit ops) = cstate_after cinit ops /\ fst (run gstep cinit ops) = cstate_after cinit ops.
+Proof. intros ops. split; [apply run_nstep_fst|apply run_gstep_fst]. Qed.
+
+(* ---- the WHOLE public operation language (the histories of the correspondence stream: add_graph_node, add_edge,
+   get_edge, get_edge_mut, Attributes, iter_nodes, iter_edges, node_count, edge_count, Variables) against
+   Spec/GraphSpec.v: a list of nodes, each with an UNORDERED finite map sink -> attributes (`espec`) ---- *)
+Theorem graph_refine : forall ops,
+  crun cinit ops = snd (run sstep sinit ops) /\
+  srel (cstate_after cinit ops) (fst (run sstep sinit ops)).
+Proof.
+  intros ops. pose proof (graph_refine_from cinit sinit ops srel_init) as H. rewrite run_cstep in H. exact H.
+Qed.
+
+(* read off the final states: same node count, same node attributes, and per node the sorted vector has the lookup
+   function, the key set and the size of the abstract edge map *)
+Theorem graph_refine_nodes : forall ops a n,
+  gnode_at (cs_graph (cstate_after cinit ops)) a = Some n ->
+  exists sn, snode_at (fst (run sstep sinit ops)) a = Some sn /\
+             g_attrs n = sn_attrs sn /\
+             (forall b, edges_get b (g_edges n) = em_get b (sn_edges sn)) /\
+             map fst (g_edges n) = nsort (em_keys (sn_edges sn)) /\
+             length (g_edges n) = length (sn_edges sn).
+Proof.
+  intros ops a n E. destruct (graph_refine ops) as [_ [Hg _]]. unfold gnode_at in E.
+  destruct (Forall2_nth_l _ _ _ _ _ Hg E) as (sn & Esn & Ha & He). exists sn. split; [exact Esn|]. split; [exact Ha|].
+  split; [apply He|]. split; [apply erel_iter, He|apply erel_length, He].
+Qed.
+
+(* ---- (4) the headline ---- *)
+Theorem containers_refine_models :
+  (forall ops : list cop,
+     crun cinit ops = snd (run sstep sinit ops) /\ srel (cstate_after cinit ops) (fst (run sstep sinit ops))) /\
+  (forall ops : list eop,
+     snd (run estep [] ops) = snd (run espec [] ops) /\ erel (fst (run estep [] ops)) (fst (run espec [] ops))) /\
+  (forall ops : list cop,
+     snd (run nstep cinit ops) = snd (run nspec O ops) /\ length (cs_graph (fst (run nstep cinit ops))) = fst (run nspec O ops)) /\
+  (forall (V : Type) (m : varmap V) (ops : list (vop V)),
+     snd (run vstep m ops) = snd (run vspec (abs_varmap m) ops) /\ frel (fst (run vstep m ops)) (fst (run vspec (abs_varmap m) ops))) /\
+  (forall ops : list cop,
+     snd (run gstep cinit ops) = snd (run gspec [gempty] ops) /\ frel (cs_vars (fst (run gstep cinit ops))) (fst (run gspec [gempty] ops))) /\
+  (forall m k v,
+     snd (attrs_add m k v) = snd (spec_attrs_add (abs_attrs m) k v) /\
+     forall k', abs_attrs (fst (attrs_add m k v)) k' = fst (spec_attrs_add (abs_attrs m) k v) k').
+Proof.
+  split; [exact graph_refine|]. split; [exact edges_refine|]. split; [exact nodes_refine|]. split; [exact vars_refine|]. split; [exact globals_refine|exact attrs_refines].
+Qed.
+
+(* the fold_left runner on the public language is the `crun` of the correspondence stream *)
+Theorem run_is_crun : forall s ops, run cstep s ops = (cstate_after s ops, crun s ops).
+Proof. exact run_cstep. Qed.
+
+(* ---- non-vacuity ---- *)
+(* 10 distinct sinks in scrambled order on one node (past the inline capacity 8 of the SmallVec), a repeated sink,
+   attribute conflict through get_edge_mut, a failed lookup *)
+Definition c17_edge_history : list eop :=
+  [EAdd 5; EAdd 3; EAdd 9; EAdd 1; EAdd 7; EAdd 2; EAdd 8; EAdd 4; EAdd 6; EAdd 0; EAdd 3;
+   EIter; ECount; EAttrAdd 3 [97] (VInt 1); EAttrAdd 3 [97] (VInt 2); EAttrGet 3 [97]; EAttrAdd 11 [97] (VInt 1); EGet 10; EGet 3].
+Example c17_edges_nonvacuous :
+  snd (run estep [] c17_edge_history) =
+    [RBool true; RBool true; RBool true; RBool true; RBool true; RBool true; RBool true; RBool true; RBool true; RBool true; RBool false;
+     RNodes [0; 1; 2; 3; 4; 5; 6; 7; 8; 9]; RCount 10; RAddAttr None; RAddAttr (Some (VInt 1)); ROptVal (Some (VInt 2)); RNoEdge;
+     RBool false; RBool true] /\
+  snd (run espec [] c17_edge_history) = snd (run estep [] c17_edge_history) /\
+  map fst (fst (run espec [] c17_edge_history)) = [5; 3; 9; 1; 7; 2; 8; 4; 6; 0].
+Proof. vm_compute. repeat split; reflexivity. Qed.
+
+(* nested scopes: shadowing by an immutable inner binding, write-through to the defining outer frame, the three
+   error variants, and the outer frame after leaving the scopes *)
+Definition c17_var_history : list (vop N) :=
+  [VAdd [97] 1 true; VAdd [98] 2 false; VNested; VAdd [97] 10 false; VGet [97]; VSet [97] 5; VSet [98] 6;
+   VAdd [99] 3 true; VNested; VSet [99] 4; VGet [99]; VPop; VGet [99]; VPop; VGet [97]; VGet [99];
+   VSet [100] 0; VSet [97] 7; VGet [97]; VAdd [97] 8 true; VClear; VGet [97]; VPop]%N.
+Example c17_vars_nonvacuous :
+  snd (run vstep [[]] c17_var_history) =
+    [VROk; VROk; VRUnit; VROk; VRVal (Some 10); VRErr VarImmutable; VRErr VarImmutable;
+     VROk; VRUnit; VROk; VRVal (Some 4); VRUnit; VRVal (Some 4); VRUnit; VRVal (Some 1); VRVal None;
+     VRErr VarUndefined; VROk; VRVal (Some 7); VRErr VarAlreadyDefined; VRUnit; VRVal None; VRSkipped]%N /\
+  snd (run vspec [fempty] c17_var_history) = snd (run vstep [[]] c17_var_history).
+Proof. vm_compute. split; reflexivity. Qed.
+
+(* write-through really reaches the outer frame: set in a nested scope, leave it, read *)
+Example c17_vars_write_through :
+  snd (run vstep [[]] [VAdd [97] 1 true; VNested; VNested; VSet [97] 2; VPop; VPop; VGet [97]]%N)
+  = [VROk; VRUnit; VRUnit; VROk; VRUnit; VRUnit; VRVal (Some 2)]%N.
+Proof. vm_compute. reflexivity. Qed.
+
+Example c17_nodes_globals_nonvacuous :
+  let ops := [OAddNode; OVarAdd [97] (VInt 1); OAddNode; OVarNested; OVarAdd [97] (VInt 2); OVarGet [97]; ONodeCount;
+              OVarRemove [97]; OVarGet [97]; OVarPop; OIterNodes; OAddNode; OVarClear; OVarGet [97]] in
+  snd (run nspec O ops) =
+    [Some (RNode 0); None; Some (RNode 1); None; None; None; Some (RCount 2); None; None; None; Some (RNodes [0; 1]); Some (RNode 2); None; None] /\
+  snd (run gspec [gempty] ops) =
+    [None; Some (RBool true); None; Some RUnit; Some (RBool true); Some (ROptVal (Some (VInt 2))); None;
+     Some RUnit; Some (ROptVal (Some (VInt 1))); Some RUnit; None; None; Some RUnit; Some (ROptVal None)].
+Proof. vm_compute. split; reflexivity. Qed.
+
+(* the whole language: 11 nodes, 10 edges out of node 0 in scrambled order (past the inline capacity), a repeated edge,
+   an out-of-range edge, iteration, count, attribute conflict on an edge; the abstract edge map of node 0 keeps the
+   insertion order, the concrete vector is sorted, the outputs agree *)
+Definition c17_public_history : list cop :=
+  [OAddNode; OAddNode; OAddNode; OAddNode; OAddNode; OAddNode; OAddNode; OAddNode; OAddNode; OAddNode; OAddNode;
+   OAddEdge 0 5; OAddEdge 0 3; OAddEdge 0 9; OAddEdge 0 1; OAddEdge 0 7; OAddEdge 0 2; OAddEdge 0 8; OAddEdge 0 4;
+   OAddEdge 0 6; OAddEdge 0 10; OAddEdge 0 3; OAddEdge 0 11; OIterEdges 0; OEdgeCount 0; OEdgeCount 1;
+   OEdgeAttrAdd 0 3 [97] (VInt 1); OEdgeAttrAdd 0 3 [97] (VInt 2); OEdgeAttrGet 0 3 [97]; OGetEdge 0 0; OGetEdge 0 10;
+   OVarAdd [97] (VInt 1); OVarNested; OVarGet [97]; OVarAdd [97] (VInt 2); OVarGet [97]; OVarPop; OVarGet [97]; OVarIter].
+Example c17_public_nonvacuous :
+  skipn 11 (crun cinit c17_public_history) =
+    [RBool true; RBool true; RBool true; RBool true; RBool true; RBool true; RBool true; RBool true; RBool true; RBool true;
+     RBool false; RSkipped; RNodes [1; 2; 3; 4; 5; 6; 7; 8; 9; 10]; RCount 10; RCount 0;
+     RAddAttr None; RAddAttr (Some (VInt 1)); ROptVal (Some (VInt 2)); RBool false; RBool true;
+     RBool true; RUnit; ROptVal (Some (VInt 1)); RBool true; ROptVal (Some (VInt 2)); RUnit; ROptVal (Some (VInt 1));
+     RAttrs [([97], VInt 1)]] /\
+  snd (run sstep sinit c17_public_history) = crun cinit c17_public_history /\
+  option_map (fun sn => map fst (sn_edges sn)) (snode_at (fst (run sstep sinit c17_public_history)) 0)
+    = Some [5; 3; 9; 1; 7; 2; 8; 4; 6; 10] /\
+  option_map (fun n => map fst (g_edges n)) (gnode_at (cs_graph (cstate_after cinit c17_public_history)) 0)
+    = Some [1; 2; 3; 4; 5; 6; 7; 8; 9; 10].
+Proof. vm_compute. repeat split; reflexivity. Qed.
